@@ -3,7 +3,8 @@ from core import *
 import props_cl
 
 OINV = ["Ok", "Independent", "FreshQueue"]
-QOPS = {"al", "rl", "rh", "af", "dp", "nq", "pa", "eq", "cc", "mc", "ca", "ma", "sw", "de"}      # rh: removal through the handle kept from the addition
+QOPS = {"al", "rl", "af", "dp", "nq", "pa", "eq", "cc", "mc", "ca", "ma", "sw", "de"}
+RH = {"rh"}      # removal through the handle kept from the addition (also probed by every script's epilogue)
 
 
 def oconsts(objs=2, cbs=2, enq=1, filters=1, ops=QOPS, defects=()):
@@ -25,10 +26,12 @@ ASSUME = ["TLC and the CommunityModules JSON reader are correct", "harness/obj_i
 
 def c10_objgen(tier, seed):
     quick = tier == "quick"
-    q = {"module": "ObjGen", "tag": "queue", "invariants": OINV, "constants": oconsts(objs=2 if quick else 3, cbs=2, enq=1, filters=1, ops=QOPS - {"rh"} if quick else QOPS)}
+    q = {"module": "ObjGen", "tag": "queue", "invariants": OINV, "constants": oconsts(objs=2 if quick else 3, cbs=2, enq=1, filters=1, ops=QOPS)}
     qwf = {"module": "ObjGen", "tag": "queue-wf", "invariants": OINV, "constants": oconsts(objs=2, cbs=1, enq=1, filters=0, ops={"al", "nq", "pa", "eq", "wf", "cc", "mc", "ca", "ma", "sw"})}
-    qnf = {"module": "ObjGen", "tag": "queue-nofilter", "invariants": OINV, "constants": oconsts(objs=2 if quick else 3, cbs=2 if quick else 3, enq=1, filters=0, ops=QOPS - {"af"})}
-    d = {"module": "ObjGen", "tag": "disp", "invariants": OINV, "constants": oconsts(objs=2 if quick else 3, cbs=3, enq=0, filters=1, ops={"al", "rl", "af", "dp", "cc", "mc", "ca", "ma", "sw", "de"} | (set() if quick else {"rh"}))}
+    qnf = {"module": "ObjGen", "tag": "queue-nofilter", "invariants": OINV, "constants": oconsts(objs=2 if quick else 3, cbs=2 if quick else 3, enq=1, filters=0, ops=(QOPS | RH) - {"af"} if quick else QOPS - {"af"})}
+    d = {"module": "ObjGen", "tag": "disp", "invariants": OINV, "constants": oconsts(objs=2 if quick else 3, cbs=3, enq=0, filters=1, ops={"al", "rl", "af", "dp", "cc", "mc", "ca", "ma", "sw", "de"})}
+    # thorough: kept handles as generated operations too (two objects, three callbacks)
+    dh = {"module": "ObjGen", "tag": "disp-handles", "invariants": OINV, "constants": oconsts(objs=2, cbs=3, enq=0, filters=1, ops={"al", "rl", "rh", "af", "dp", "cc", "mc", "ca", "ma", "sw", "de"})}
     worlds = [oworld("o_queue_single_ab", 0, threading=0, fill="0xAB", only_tags=["queue"]),
               oworld("o_queue_multi_ff", 0, threading=1, fill="0xFF", only_tags=["queue", "queue-wf"], fraction=0.3, std="c++17"),
               oworld("o_disp_spin_00", 1, threading=2, fill="0x00", only_tags=["disp"], fraction=0.5),
@@ -39,4 +42,7 @@ def c10_objgen(tier, seed):
               oworld("o_queue_tracked_ff", 0, threading=3, fill="0xFF", only_tags=["queue", "queue-wf"], fraction=0.3),
               oworld("o_hqueue_tracked_a5", 2, threading=3, fill="0xA5", only_tags=["queue-nofilter", "queue-wf"], fraction=0.3),
               oworld("o_disp_tracked_ab", 1, threading=3, fill="0xAB", only_tags=["disp"], fraction=0.3)]
-    return [q, qwf, qnf, d], worlds
+    for w in worlds:
+        if "disp" in w.get("only_tags", []):
+            w["only_tags"] = w["only_tags"] + ["disp-handles"]
+    return ([q, qwf, qnf, d] if quick else [q, qwf, qnf, d, dh]), worlds
